@@ -9,7 +9,8 @@ EXTENDS IggyCatalogue, Json
 CONSTANTS SIds, SNames,     \* stream ids a create may request (0 = server's choice) and names
           TIds, TNames, GIds, GNames, UNames, Clients,
           MaxId,            \* bound for server-chosen ids
-          MaxOps, Ops
+          MaxOps, Ops,
+          Seeded            \* TRUE: start from a populated catalogue (the set-up commands are the beginning of the script)
 
 VARIABLE hist
 mvars == <<vars, hist>>
@@ -22,7 +23,24 @@ GRefs == Refs(GIds \cup {1}, GNames)
 URefs == Refs({1, 2, 3}, UNames)
 FreshIn(used) == { i \in 1..MaxId : i \notin used }
 
-MCInit == S = {} /\ T = {} /\ G = {} /\ Cnt = {} /\ Mem = {} /\ U = {<<1, "iggy", TRUE>>} /\ hist = <<>>
+SeedScript == <<
+    [op |-> "create_stream", id |-> 0, name |-> "sa"],
+    [op |-> "create_topic", s |-> [by |-> "id", v |-> 1], id |-> 0, name |-> "ta", parts |-> 2],
+    [op |-> "create_topic", s |-> [by |-> "id", v |-> 1], id |-> 0, name |-> "tb", parts |-> 1],
+    [op |-> "create_group", s |-> [by |-> "id", v |-> 1], t |-> [by |-> "id", v |-> 1], id |-> 0, name |-> "ga"],
+    [op |-> "create_group", s |-> [by |-> "id", v |-> 1], t |-> [by |-> "id", v |-> 2], id |-> 0, name |-> "ga"],
+    [op |-> "join", c |-> 1, s |-> [by |-> "id", v |-> 1], t |-> [by |-> "id", v |-> 1], g |-> [by |-> "id", v |-> 1]],
+    [op |-> "join", c |-> 1, s |-> [by |-> "id", v |-> 1], t |-> [by |-> "id", v |-> 2], g |-> [by |-> "id", v |-> 1]],
+    [op |-> "join", c |-> 2, s |-> [by |-> "id", v |-> 1], t |-> [by |-> "id", v |-> 2], g |-> [by |-> "id", v |-> 1]],
+    [op |-> "send", s |-> [by |-> "id", v |-> 1], t |-> [by |-> "id", v |-> 1], p |-> 1, k |-> 2] >>
+MCInit ==
+    IF Seeded
+    THEN /\ S = {<<1, "sa">>} /\ T = {<<1, 1, "ta", 2>>, <<1, 2, "tb", 1>>}
+         /\ G = {<<1, 1, 1, "ga">>, <<1, 2, 1, "ga">>}
+         /\ Cnt = {<<1, 1, 1, 2>>, <<1, 1, 2, 0>>, <<1, 2, 1, 0>>}
+         /\ Mem = {<<1, 1, 1, 1>>, <<1, 1, 2, 1>>, <<2, 1, 2, 1>>}
+         /\ U = {<<1, "iggy", TRUE>>} /\ hist = SeedScript
+    ELSE S = {} /\ T = {} /\ G = {} /\ Cnt = {} /\ Mem = {} /\ U = {<<1, "iggy", TRUE>>} /\ hist = <<>>
 
 MCCreateStream ==
     /\ "create_stream" \in Ops
@@ -104,7 +122,7 @@ MCRestart ==
 
 MCNext == MCCreateStream \/ MCUpdateStream \/ MCDeleteStream \/ MCPurgeStream \/ MCCreateTopic \/ MCTopicOps
           \/ MCDisconnect \/ MCUsers \/ MCRestart
-Bounded == Len(hist) <= MaxOps
+Bounded == Len(hist) <= MaxOps + (IF Seeded THEN Len(SeedScript) ELSE 0)
 MCSpec == MCInit /\ [][MCNext]_mvars
 View == vars
 
